@@ -432,7 +432,11 @@ func main() {
 			g := &gcase{exact: ex.Args()[0].Int() != 0}
 			if gen, ok := cs.Field("gen"); ok {
 				a := gen.Args()
-				emitFew(c, a[1].Int(), a[2].Int(), a[3].Int(), g.exact)
+				if a[0].Atom == "many" {
+					scaleMany(c, a[1].Int(), g.exact)
+				} else {
+					emitFew(c, a[1].Int(), a[2].Int(), a[3].Int(), g.exact)
+				}
 				continue
 			}
 			cm, _ := cs.Field("commits")
